@@ -378,6 +378,43 @@ def run(ctx):
                 ctx.violation("impl-violation", what, {"pool_stress": [mode, calls]}, {"site": "hang" if line.startswith("HANG") else "stress"})
             ctx.case(("stress", mode, calls), nontrivial=True)
 
+    # ---------------- wrong-kind calls AFTER legal calls on the same underlying data (the halves of one recording fitted
+    # separately, concatenated, and jointly - then handed to the wrong front end): what earlier calls left behind in
+    # the process (caches keyed by content, remembered shapes) must not make the wrong call succeed
+    if ctx.replay is None:
+        half = (series[0].shape[0] // 2)
+        a_, b_ = np.array(series[0][:half], copy=True), np.array(series[0][half:2 * half], copy=True)
+        kq = dict(kw, iteration_limit=2)
+
+        def quiet_call(fn, arg):
+            tu.seed_all(cfg["seed"])
+            with tu.quiet(), warnings.catch_warnings():
+                warnings.simplefilter("ignore")
+                return fn(arg, **kq)
+        for fn, arg in ((fast_ticc.ticc_labels, a_), (fast_ticc.ticc_labels, np.vstack([a_, b_])),
+                        (fast_ticc.ticc_joint_labels, [a_, b_]), (fast_ticc.ticc_labels, b_)):
+            try:
+                quiet_call(fn, arg)
+                ctx.count("priming_calls")
+            except Exception as e:            # a legal call that raises is not this scenario's business
+                ctx.count("priming_calls_raised:" + type(e).__name__)
+        for what, fn, arg, other in (("ticc_labels given a list of series", fast_ticc.ticc_labels, [a_, b_], "ticc_joint_labels"),
+                                     ("ticc_labels given a tuple of series", fast_ticc.ticc_labels, (a_, b_), "ticc_joint_labels"),
+                                     ("ticc_joint_labels given one 2-d array", fast_ticc.ticc_joint_labels, np.vstack([a_, b_]), "ticc_labels"),
+                                     ("ticc_joint_labels given one 2-d array", fast_ticc.ticc_joint_labels, a_, "ticc_labels")):
+            try:
+                quiet_call(fn, arg)
+                ctx.violation("impl-violation", f"{what}, after legal calls on the same data: returned a result instead of raising",
+                              {"cfg": cfg, "scenario": "wrong-kind-after-legal"}, {"site": "fault-swallowed"})
+            except TypeError as e:
+                if other not in str(e):
+                    ctx.violation("impl-violation", f"{what}: TypeError does not name {other}: {e}", {"cfg": cfg}, {"site": "wrong-exception"})
+            except Exception as e:
+                ctx.violation("impl-violation", f"{what}, after legal calls on the same data: expected TypeError naming {other}, got "
+                              f"{type(e).__name__}: {str(e)[:120]}", {"cfg": cfg, "scenario": "wrong-kind-after-legal"}, {"site": "wrong-exception"})
+            ctx.count("wrong_kind_after_legal")
+        ctx.case(("wrong-kind-after-legal",), nontrivial=True)
+
     # ---------------- documented argument errors of the helpers: each surfaces as the exception the code names, none
     # returns a value (these are the error branches the runs above never enter)
     if ctx.replay is None:
